@@ -814,3 +814,7 @@ def run(ctx):
     _run_main2(ctx)
     extras2(ctx)
     ctx.flush()
+
+
+# evidence: how the model is tied to the source on every run (as built, supersedes the value above)
+TIE = 'translator (design tables -> Gen/DesignSpectra, roll/step/interp functions -> Gen/GenericFns, Gen/GenericFns2; Props/C20Gen, C20GenFns, C20GenFns2) + correspondence'
